@@ -78,7 +78,7 @@ def confirm(d):
     return res
 
 
-def run(d, pids, jobs="8"):
+def run(d, pids, jobs=os.environ.get("SEEDED_JOBS", "6")):
     """Run the quick checks against a scratch copy of /repo's HEAD with the patch applied
     (VERIF_REPO / VERIF_OUT), so neither /repo nor the committed evidence is touched."""
     d = os.path.abspath(d)
